@@ -8,12 +8,17 @@ from . import topo_common as tc
 def run(tier, seed):
     rep = Report("C07", tier, seed)
     quick = tier == "quick"
-    for sd, d in (("empty", 4 if quick else 5), ("two", 3), ("svc", 3)):
+    for sd, d in (("empty", 4 if quick else 5), ("two", 2 if quick else 3), ("svc", 2 if quick else 3)):
         tc.model_check(rep, "MC_FimTopology seed=" + sd, tc.consts(d if quick or sd == "empty" else d + 1, sd, "full"))
     scripts = []
     for sd in ("two", "svc"):
-        scripts += tc.generate(rep, "Gen_FimTopology seed=" + sd, tc.consts(3 if quick else 4, sd, "full"))
+        scripts += tc.generate(rep, "Gen_FimTopology seed=" + sd, tc.consts(3 if quick else 4, sd, "full"), workers=8 if quick else 1)
     tc.run_and_validate(rep, scripts, "tlc-generated building/removal behaviours from seeded topologies")
+    # substrate flavour: explicit ids, node-level services, explicit links, composite builders
+    tc.model_check(rep, "MC_FimTopology substrate seed=sub", tc.consts(3 if quick else 4, "sub", "full", "substrate"))
+    sscripts = tc.generate(rep, "Gen_FimTopology substrate seed=sub", tc.consts(3 if quick else 4, "sub", "full", "substrate"),
+                           workers=8 if quick else 1)
+    tc.run_and_validate(rep, sscripts, "tlc-generated substrate-model behaviours", flavour="substrate")
     rng = random.Random(seed)
     gen = tc.RandomTopoOps(rng)
     rs = [gen.script(45) for _ in range(150 if quick else 3000)]
